@@ -28,12 +28,27 @@ inductive SiteKind where
   | httpError   -- http.Error: text/plain; charset=utf-8 + X-Content-Type-Options: nosniff
   deriving Repr, DecidableEq, BEq
 
+/-- quoting context of a formatting verb, from a small HTML tokenizer run by the extractor
+    over the constant format strings of a function's output sites in source order -/
+inductive Ctx where
+  | text        -- element text (including <title>)
+  | attrDq      -- inside a double-quoted attribute value
+  | attrSq      -- inside a single-quoted attribute value
+  | attrUnq     -- unquoted attribute value
+  | tag         -- inside a tag, outside any attribute value
+  | script      -- inside <script>…</script>
+  | style       -- inside <style>…</style>
+  | comment     -- inside <!-- … -->
+  | unknown     -- after an output whose text the extractor cannot see (fail-closed)
+  deriving Repr, DecidableEq, BEq
+
 structure Site where
   loc  : String          -- file:line
   fn   : String          -- enclosing function
   kind : SiteKind
   fmt  : String          -- format string ("" for http.Error)
   args : List ArgClass
+  ctxs : List Ctx        -- one per argument for fprintf/bufprintf sites, [] otherwise
   deriving Repr, DecidableEq, BEq
 
 structure Route where
@@ -68,6 +83,29 @@ def Site.isHtml (s : Site) : Bool :=
   (s.kind == .fprintf || s.kind == .bufprintf) && !(playlistFns.contains s.fn)
 
 def Site.htmlSafe (s : Site) : Bool := !s.isHtml || s.args.all ArgClass.htmlSafe
+
+/-- which classes may be printed in which context.  Escaped / path-escaped strings are safe
+    as element text and inside double-quoted attribute values only; inside a tag, an unquoted
+    value, a comment or a style block only constants, numbers and hex; inside a script block
+    additionally the request's own Host (noted: not torrent/peer controlled) — never a
+    torrent-, tracker- or peer-controlled string, escaped or not -/
+def ctxOK : Ctx → ArgClass → Bool
+  | .text, a | .attrDq, a =>
+    (match a with | .escaped | .pathescaped | .hex | .number | .addr | .const => true | _ => false)
+  | .attrSq, a =>
+    (match a with | .escaped | .hex | .number | .addr | .const => true | _ => false)
+  | .tag, a | .attrUnq, a | .style, a | .comment, a =>
+    (match a with | .hex | .number | .const => true | _ => false)
+  | .script, a =>
+    (match a with | .hex | .number | .const | .request _ => true | _ => false)
+  | .unknown, a => (match a with | .const => true | _ => false)
+
+def allCtxOK : List Ctx → List ArgClass → Bool
+  | [], [] => true
+  | c :: cs, a :: as => ctxOK c a && allCtxOK cs as
+  | _, _ => false          -- a context for every argument
+
+def Site.contextSafe (s : Site) : Bool := !s.isHtml || allCtxOK s.ctxs s.args
 
 /-- the raw arguments of the HTML sites: the counter-examples, naming file:line and expression -/
 def rawHtmlArgs (t : List Site) : List (String × ArgClass) :=
